@@ -40,7 +40,16 @@ Proof. exact (compose_set_spec preds nodes required ins outs S). Qed.
 Print Assumptions C19_compose_set_spec.
 
 Theorem C19_compose_only_needed (preds : nat -> list nat) (nodes required ins outs S : list nat) :
-  compose_set preds nodes required ins outs = Some S ->
+  incl outs nodes -> compose_set preds nodes required ins outs = Some S ->
   forall x, In x S -> In x ins \/ exists o, In o outs /\ reach preds nodes x o.
 Proof. exact (compose_only_needed preds nodes required ins outs S). Qed.
 Print Assumptions C19_compose_only_needed.
+
+(* ValueError iff an input is a strict ancestor of another input, or the outputs need a DAG parameter
+   without default that was not declared as input *)
+Theorem C19_compose_error_iff (preds : nat -> list nat) (nodes required ins outs : list nat) :
+  compose_set preds nodes required ins outs = None <->
+  (exists i j, In i ins /\ In j ins /\ In i (strict_anc preds nodes j)) \/
+  (exists r, In r required /\ needed preds nodes ins outs r).
+Proof. exact (compose_set_error_iff' preds nodes required ins outs). Qed.
+Print Assumptions C19_compose_error_iff.
